@@ -341,3 +341,38 @@ def fragment_pair(draw, ndims=(1, 2, 3)):
     if draw(st.integers(0, 4)) == 0:
         pred, ref = ref, pred
     return pred, ref
+
+
+NAME_ALPHABET = "abcXYZ019-_ ."
+
+
+@st.composite
+def names(draw, n, alphabet=NAME_ALPHABET, max_size=7):
+    """n names, unique ignoring case, non-empty, printable (letters, digits, '-', '_', space, '.', upper case)."""
+    out, seen = [], set()
+    for i in range(n):
+        s = draw(st.text(alphabet=alphabet, min_size=1, max_size=max_size))
+        if s.lower() in seen or not s.strip():
+            s = f"{s.strip() or 'g'}{i}"
+            while s.lower() in seen:
+                s += "x"
+        seen.add(s.lower())
+        out.append(s)
+    return out
+
+
+@st.composite
+def group_defs(draw, labels=(1, 2, 3, 4, 5, 6), max_groups=4, name_alphabet=NAME_ALPHABET):
+    """Random partition of a subset of `labels` into 1-4 groups of kinds plain/merge/single."""
+    ng = draw(st.integers(1, max_groups))
+    perm = list(draw(st.permutations(list(labels))))
+    nms = draw(names(ng, alphabet=name_alphabet))
+    groups = []
+    for i in range(ng):
+        if not perm:
+            break
+        kind = draw(st.sampled_from(["plain", "plain", "merge", "single"]))
+        k = 1 if kind == "single" else draw(st.integers(1, max(1, min(3, len(perm) - (ng - i - 1)))))
+        labs, perm = perm[:k], perm[k:]
+        groups.append({"name": nms[i], "labels": sorted(labs), "kind": kind})
+    return groups
